@@ -460,7 +460,33 @@ def rule_gadgets(repo, rule):
         tb = [a for a in body if isinstance(a, ast.Assign) and isinstance(a.value, ast.Call) and norm(a.value.func).endswith(".to_bits")]
         comp = [a for a in body if isinstance(a, ast.Assign) and isinstance(a.value, ast.ListComp)]
         rets = [n for n in body if isinstance(n, ast.Return)]
-        if len(tb) == 2 and comp and rets and norm(rets[0].value) == "LinComb.from_bits(%s)" % norm(comp[0].targets[0]):
+        # the value returned, with the arm's single-assignment locals substituted:
+        #   from_bits([POLY(x, y) for x, y in zip(self.to_bits(), other.to_bits())])       (whatever the locals are called)
+        from ..flatten import resolve_locals as _rlb
+        rv = _rlb(f.node, rets[0].value, max_depth=6) if rets and rets[0].value is not None else None
+        sem = None
+        if isinstance(rv, ast.Call) and norm(rv.func).split(".")[-1] == "from_bits" and len(rv.args) == 1 and isinstance(rv.args[0], (ast.ListComp, ast.GeneratorExp)) \
+                and len(rv.args[0].generators) == 1:
+            g_ = rv.args[0].generators[0]
+            if isinstance(g_.iter, ast.Call) and norm(g_.iter.func) == "zip" and len(g_.iter.args) == 2 and isinstance(g_.target, ast.Tuple) \
+                    and len(g_.target.elts) == 2 and not g_.ifs:
+                srcs_ = sorted(norm(a) for a in g_.iter.args)
+                want_ = sorted(["%s.to_bits()" % f.params[0], "%s.to_bits()" % f.params[1]])
+                a_, b_ = [norm(e) for e in g_.target.elts]
+                p_ = poly_of(rv.args[0].elt, {a_: P.sym("a"), b_: P.sym("b")}, strict=True)
+                table_ = tuple(int(p_.evaluate({"a": x, "b": y})) for x in (0, 1) for y in (0, 1)) if p_ is not None else None
+                sem = (srcs_ == want_, p_, table_)
+        if sem is not None and not (len(tb) == 2 and comp):
+            okd, p_, table_ = sem
+            if okd and table_ == tt:
+                rule.ok(f.loc(rets[0]), f.fq, "per-bit %s over both decompositions" % p_, "truth table %s" % (table_,))
+            elif okd:
+                rule.violation(f.loc(rets[0]), f.fq, "per-bit %s, table %s" % (p_, table_), "per-bit polynomial does not have the truth "
+                               "table of %s %s" % (name, tt), "bitwise/%s/table" % name)
+            else:
+                rule.violation(f.loc(rets[0]), f.fq, norm(rv)[:100], "secret/secret bitwise operator does not combine the bits of both operands",
+                               "bitwise/%s/shape" % name)
+        elif len(tb) == 2 and comp and rets and norm(rets[0].value) == "LinComb.from_bits(%s)" % norm(comp[0].targets[0]):
             g = comp[0].value.generators[0]
             srcs = {norm(t.targets[0]) for t in tb}
             zipped = norm(g.iter).replace(" ", "")
@@ -597,6 +623,9 @@ def check(repo, rep, tier):
     r5 = rep.rule("R-C02-5", "emission is memoryless: constraints tie THIS call's operands, never a cached earlier result", floor=4)
     from .memoryless import rule_memoryless
     rule_memoryless(repo, r5)
+    r6 = rep.rule("R-C02-6", "under a guard every constraint is enforced on its own: v*w = y + dummy with guard*dummy = 0 per constraint (shared with C07)", floor=3)
+    from .c07 import rule_dummy_path
+    rule_dummy_path(repo, r6)
     r4 = rep.rule("R-C02-4", "constraints are not emitted under a stale guard: guard state is restored on every exit (shared with C08)", floor=10)
     from .c08 import guard_discipline
     guard_discipline(repo, r4)
